@@ -84,6 +84,9 @@ type c18World struct {
 	usSingle int64
 	legacy   map[types.Object]string
 	failed   bool
+	// legacyOnly: see c18Producer
+	legacyOnly map[string]bool
+	legacyUse  map[*FuncInfo]bool
 }
 
 func (w *c18World) show(s c18Style) string {
@@ -514,6 +517,9 @@ type c18Producer struct {
 	isLegacy bool
 	epilogue bool // whole-string encoder (has an end of string)
 	encode   func(cells []c18Style) c18Encoded
+	// legacyOnly: template strings that exist only in the legacy-sgr configuration (variant values of the
+	// package-level template variables that differ from the initial value)
+	legacyOnly map[string]bool
 }
 
 func (p *c18Producer) label() string {
@@ -648,13 +654,22 @@ func (p *c18Producer) keyOf(ev c18Event) (key string, pos token.Pos) {
 		for i, re := range st.res {
 			if re.MatchString(ev.text) {
 				st.fired[i] = true
-				if p.isLegacy && i > 0 && len(st.templates) > 1 {
+				if p.isLegacy && i > 0 && len(st.templates) > 1 && (p.legacyOnly == nil || p.legacyOnly[st.templates[i]]) {
 					// a variant form that only exists under VAXIS_FORCE_LEGACY_SGR: keyed per producer (see ruleUnit)
 					return st.keys[i] + c18LegacyTag, ev.call.Pos()
 				}
 				return st.keys[i], ev.call.Pos()
 			}
 		}
+	}
+	// A site the emission extractor has no template for (the template is a struct field, a table entry or a
+	// parameter of a helper): the evaluator knows the string that was formatted / written.
+	if ev.tmpl != "" {
+		key = c18TemplateKey(ev.tmpl)
+		if p.isLegacy && p.legacyOnly[ev.tmpl] {
+			key += c18LegacyTag
+		}
+		return key, ev.call.Pos()
 	}
 	// dynamic text: normalise digits
 	norm := regexp.MustCompile(`[0-9]+`).ReplaceAllString(ev.text, "%d")
@@ -699,7 +714,7 @@ func (w *c18World) stringEncoder(name string) (*c18Producer, string) {
 	if mode == "" {
 		return nil, "signature is neither func([]Cell) string nor a method of a struct with Cells []Cell"
 	}
-	prod := &c18Producer{name: name, fi: fi, su: true, rgb: true, epilogue: true}
+	prod := &c18Producer{name: name, fi: fi, su: true, rgb: true, epilogue: true, legacyOnly: w.legacyOnly}
 	prod.sites = w.sitesOf(fi, c18BuilderSink, true)
 	prod.encode = func(cells []c18Style) (e c18Encoded) {
 		vals := make([]c18Val, len(cells))
@@ -758,6 +773,14 @@ func (w *c18World) stringEncoder(name string) (*c18Producer, string) {
 }
 
 // ---- render: the per-cell SGR region
+//
+// The region is the part of the body of the cell loop that compares the pen (a local of type Style) with the next cell
+// and writes the difference: it ends at the statement `<pen> = <cell>.Style` and begins at the first statement that
+// writes an SGR itself or mentions an SGR component of the pen. The SGRs may be written by the region's own statements
+// (static emission sites, known to the extractor E1) or by helpers, methods of a sequence-table type and closures the
+// region calls (the evaluator follows them; the template of such a write is the string value that is formatted).
+// Locals the region uses but does not define (tables of sequences, closures, flags) are bound from their single
+// definition in an enclosing block (c18LocalDef); anything else the region reads from outside is unknown.
 
 type c18Region struct {
 	fi    *FuncInfo
@@ -767,12 +790,11 @@ type c18Region struct {
 	recv  types.Object
 	flags []string // capability flags read in the region: "rgb", "styledUnderlines"
 	pos   token.Pos
+	// prelude: single-definition locals defined before the region that the region uses (see c18LocalDef)
+	prelude []c18LocalDef
 }
 
 func (w *c18World) renderRegion(fi *FuncInfo, sites map[*ast.CallExpr]*c18Site) (*c18Region, string) {
-	if len(sites) == 0 {
-		return nil, "no SGR emission site found"
-	}
 	info := fi.Pkg.TypesInfo
 	parents := w.p.Parents(fi.Pkg)
 	var calls []*ast.CallExpr
@@ -785,31 +807,80 @@ func (w *c18World) renderRegion(fi *FuncInfo, sites map[*ast.CallExpr]*c18Site) 
 		return nil, "SGR emission sites are spread over helper functions (region shape not recognised)"
 	}
 	sort.Slice(calls, func(i, j int) bool { return calls[i].Pos() < calls[j].Pos() })
-	// innermost statement list containing every site
+	// the statements that advance the pen: <Style local> = <Cell local>.Style
+	type advance struct {
+		stmt       *ast.AssignStmt
+		prev, next types.Object
+	}
+	isAdvance := func(s ast.Stmt) (advance, bool) {
+		as, ok := s.(*ast.AssignStmt)
+		if !ok || as.Tok != token.ASSIGN || len(as.Lhs) != 1 || len(as.Rhs) != 1 {
+			return advance{}, false
+		}
+		id, ok := as.Lhs[0].(*ast.Ident)
+		if !ok || !c18IsNamed(info.TypeOf(id), "Style") {
+			return advance{}, false
+		}
+		if _, isVar := info.ObjectOf(id).(*types.Var); !isVar {
+			return advance{}, false
+		}
+		ro := rootObj(info, as.Rhs[0])
+		if ro == nil || !c18IsNamed(ro.Type(), "Cell") || !c18IsNamed(info.TypeOf(as.Rhs[0]), "Style") {
+			return advance{}, false
+		}
+		return advance{as, info.ObjectOf(id), ro}, true
+	}
+	listOf := func(n ast.Node) []ast.Stmt {
+		switch t := n.(type) {
+		case *ast.BlockStmt:
+			return t.List
+		case *ast.CaseClause:
+			return t.Body
+		}
+		return nil
+	}
 	var owner ast.Node
 	var list []ast.Stmt
-	for cur := parents[calls[0]]; cur != nil; cur = parents[cur] {
-		var l []ast.Stmt
-		switch t := cur.(type) {
-		case *ast.BlockStmt:
-			l = t.List
-		case *ast.CaseClause:
-			l = t.Body
-		default:
-			continue
-		}
-		all := true
-		for _, c := range calls {
-			if !(cur.Pos() <= c.Pos() && c.End() <= cur.End()) {
-				all = false
+	if len(calls) > 0 {
+		// innermost statement list containing every site
+		for cur := parents[calls[0]]; cur != nil; cur = parents[cur] {
+			l := listOf(cur)
+			if l == nil {
+				if _, isLit := cur.(*ast.FuncLit); isLit {
+					return nil, "an SGR emission site of the function is inside a function literal"
+				}
+				continue
+			}
+			all := true
+			for _, c := range calls {
+				if !(cur.Pos() <= c.Pos() && c.End() <= cur.End()) {
+					all = false
+				}
+			}
+			if all {
+				owner, list = cur, l
+				break
 			}
 		}
-		if all {
-			owner, list = cur, l
-			break
+	} else {
+		// every SGR is written by helpers (tables, methods of a sequence type): the region is found from the
+		// statement that advances the pen, which must be unique
+		var found []ast.Stmt
+		inspectNoLit(fi.Decl.Body, func(n ast.Node) bool {
+			if st, ok := n.(ast.Stmt); ok {
+				if _, ok := isAdvance(st); ok {
+					found = append(found, st)
+				}
+			}
+			return true
+		})
+		if len(found) != 1 {
+			return nil, fmt.Sprintf("no SGR emission site in the function itself and %d statements of the form `<pen> = <cell>.Style`", len(found))
 		}
+		owner = parents[found[0]]
+		list = listOf(owner)
 	}
-	if owner == nil {
+	if owner == nil || list == nil {
 		return nil, "no common statement list"
 	}
 	contains := func(s ast.Stmt, c *ast.CallExpr) bool { return s.Pos() <= c.Pos() && c.End() <= s.End() }
@@ -824,27 +895,35 @@ func (w *c18World) renderRegion(fi *FuncInfo, sites map[*ast.CallExpr]*c18Site) 
 			}
 		}
 	}
-	// the statement that advances the pen: <Style local> = <Cell local>.Style
+	from := lastSite
+	if from < 0 {
+		from = 0
+	}
 	end := -1
 	var prev, next types.Object
-	for i := lastSite; i < len(list); i++ {
-		as, ok := list[i].(*ast.AssignStmt)
-		if !ok || as.Tok != token.ASSIGN || len(as.Lhs) != 1 || len(as.Rhs) != 1 {
-			continue
+	for i := from; i < len(list); i++ {
+		if adv, ok := isAdvance(list[i]); ok {
+			end, prev, next = i, adv.prev, adv.next
+			break
 		}
-		id, ok := as.Lhs[0].(*ast.Ident)
-		if !ok || !c18IsNamed(info.TypeOf(id), "Style") {
-			continue
-		}
-		ro := rootObj(info, as.Rhs[0])
-		if ro == nil || !c18IsNamed(ro.Type(), "Cell") {
-			continue
-		}
-		end, prev, next = i, info.ObjectOf(id), ro
-		break
 	}
 	if end < 0 {
 		return nil, "no `<pen> = <cell>.Style` statement after the last SGR emission"
+	}
+	// The region is the part of the cell loop that compares the pen with the next cell: it begins at the first
+	// statement that writes an SGR itself or mentions an SGR component of the pen (or the pen as a whole, e.g. as an
+	// argument of a helper); mentions of the other fields (Hyperlink, HyperlinkParams) do not count.
+	for i, s := range list[:end] {
+		if first >= 0 && i >= first {
+			break
+		}
+		if c18MentionsPenSGR(info, s, prev) {
+			first = i
+			break
+		}
+	}
+	if first < 0 {
+		return nil, "no statement before `<pen> = <cell>.Style` writes an SGR or reads an SGR component of the pen"
 	}
 	// nothing before the region may modify the pen or (other than defining it) the cell
 	for _, s := range list[:first] {
@@ -861,11 +940,14 @@ func (w *c18World) renderRegion(fi *FuncInfo, sites map[*ast.CallExpr]*c18Site) 
 	if fi.Decl.Recv != nil && len(fi.Decl.Recv.List) == 1 && len(fi.Decl.Recv.List[0].Names) == 1 {
 		r.recv = info.Defs[fi.Decl.Recv.List[0].Names[0]]
 	}
-	// reads of receiver state inside the region
+	if why := w.regionPrelude(r, owner); why != "" {
+		return nil, why
+	}
+	// reads of receiver state inside the region (and the definitions it uses)
 	flagSet := map[string]bool{}
 	bad := ""
-	for _, s := range r.stmts {
-		ast.Inspect(s, func(n ast.Node) bool {
+	scan := func(root ast.Node) {
+		ast.Inspect(root, func(n ast.Node) bool {
 			sel, ok := n.(*ast.SelectorExpr)
 			if !ok {
 				return true
@@ -892,6 +974,14 @@ func (w *c18World) renderRegion(fi *FuncInfo, sites map[*ast.CallExpr]*c18Site) 
 			return true
 		})
 	}
+	for _, s := range r.stmts {
+		scan(s)
+	}
+	for _, d := range r.prelude {
+		if d.init != nil {
+			scan(d.init)
+		}
+	}
 	if bad != "" {
 		return nil, "the SGR region reads " + bad + ", which the check has no model for"
 	}
@@ -902,12 +992,271 @@ func (w *c18World) renderRegion(fi *FuncInfo, sites map[*ast.CallExpr]*c18Site) 
 	return r, ""
 }
 
+// c18MentionsPenSGR: does s mention the pen variable other than through its non-SGR fields?
+func c18MentionsPenSGR(info *types.Info, s ast.Node, pen types.Object) bool {
+	found := false
+	var visit func(n ast.Node) bool
+	visit = func(n ast.Node) bool {
+		if found {
+			return false
+		}
+		switch t := n.(type) {
+		case *ast.SelectorExpr:
+			if id, ok := unparen(t.X).(*ast.Ident); ok && info.ObjectOf(id) == pen {
+				if _, isField := info.Selections[t]; isField {
+					for _, c := range c18Comps {
+						if t.Sel.Name == c {
+							found = true
+						}
+					}
+					return false // pen.Hyperlink etc.
+				}
+			}
+		case *ast.Ident:
+			if info.ObjectOf(t) == pen {
+				found = true
+			}
+		}
+		return !found
+	}
+	ast.Inspect(s, visit)
+	return found
+}
+
+// c18LocalDef is a local variable of the producer that the SGR region uses but does not define: a table of
+// sequences, a closure, a flag computed from the capabilities. It is defined exactly once, by a declaration in a
+// block enclosing the region, and mentioned nowhere outside the region and the definitions of other such variables,
+// so the value the region sees is the value of its initialiser.
+type c18LocalDef struct {
+	obj     types.Object
+	init    ast.Expr // nil: zero value
+	perCell bool     // defined in the statement list of the region itself: evaluated for every cell
+}
+
+func listOfNode(n ast.Node) []ast.Stmt {
+	switch t := n.(type) {
+	case *ast.BlockStmt:
+		return t.List
+	case *ast.CaseClause:
+		return t.Body
+	}
+	return nil
+}
+
+// regionPrelude collects the definitions of r.prelude in source order. Locals that do not qualify stay unbound: the
+// evaluator reads them as unknown and aborts (undecided) where a decision depends on them.
+func (w *c18World) regionPrelude(r *c18Region, owner ast.Node) string {
+	fi := r.fi
+	info := fi.Pkg.TypesInfo
+	parents := w.p.Parents(fi.Pkg)
+	inRegion := func(n ast.Node) bool {
+		return len(r.stmts) > 0 && r.stmts[0].Pos() <= n.Pos() && n.End() <= r.stmts[len(r.stmts)-1].End()
+	}
+	// the blocks enclosing the region
+	enclosing := map[ast.Node]bool{}
+	for cur := owner; cur != nil; cur = parents[cur] {
+		enclosing[cur] = true
+	}
+	type def struct {
+		stmt ast.Node // *ast.AssignStmt (:=) or *ast.ValueSpec
+		init ast.Expr
+		id   *ast.Ident
+	}
+	// every definition of a local by a declaration that is a direct statement of an enclosing block, before the region
+	defs := map[types.Object]def{}
+	multi := map[types.Object]bool{}
+	note := func(o types.Object, d def) {
+		if o == nil {
+			return
+		}
+		if _, dup := defs[o]; dup {
+			multi[o] = true
+		}
+		defs[o] = d
+	}
+	for blk := range enclosing {
+		var l []ast.Stmt
+		switch t := blk.(type) {
+		case *ast.BlockStmt:
+			l = t.List
+		case *ast.CaseClause:
+			l = t.Body
+		default:
+			continue
+		}
+		for _, s := range l {
+			if s.Pos() >= r.stmts[0].Pos() {
+				break
+			}
+			switch t := s.(type) {
+			case *ast.AssignStmt:
+				if t.Tok != token.DEFINE || len(t.Lhs) != len(t.Rhs) {
+					continue
+				}
+				for i, lh := range t.Lhs {
+					if id, ok := lh.(*ast.Ident); ok && id.Name != "_" {
+						if o := info.Defs[id]; o != nil {
+							note(o, def{t, t.Rhs[i], id})
+						}
+					}
+				}
+			case *ast.DeclStmt:
+				gd, ok := t.Decl.(*ast.GenDecl)
+				if !ok || gd.Tok != token.VAR {
+					continue
+				}
+				for _, sp := range gd.Specs {
+					vs, ok := sp.(*ast.ValueSpec)
+					if !ok || (len(vs.Values) != 0 && len(vs.Values) != len(vs.Names)) {
+						continue
+					}
+					for i, id := range vs.Names {
+						if id.Name == "_" {
+							continue
+						}
+						var init ast.Expr
+						if len(vs.Values) > 0 {
+							init = vs.Values[i]
+						}
+						note(info.Defs[id], def{vs, init, id})
+					}
+				}
+			}
+		}
+	}
+	// mentions of every local of the function, by place
+	uses := map[types.Object][]*ast.Ident{}
+	ast.Inspect(fi.Decl.Body, func(n ast.Node) bool {
+		if id, ok := n.(*ast.Ident); ok {
+			if o, ok := info.Uses[id].(*types.Var); ok && !o.IsField() && o.Pkg() != nil && o.Parent() != o.Pkg().Scope() {
+				uses[o] = append(uses[o], id)
+			}
+		}
+		return true
+	})
+	// wanted: locals the region mentions, closed under the initialisers of accepted definitions
+	accepted := map[types.Object]bool{}
+	var order []types.Object
+	var want func(root ast.Node)
+	inInit := func(id *ast.Ident, of types.Object) bool {
+		d := defs[of]
+		return d.init != nil && d.init.Pos() <= id.Pos() && id.End() <= d.init.End()
+	}
+	qmemo := map[types.Object]int{} // 1 = being decided, 2 = yes, 3 = no
+	var qualifies func(o types.Object) bool
+	var qualifies1 func(o types.Object) bool
+	qualifies = func(o types.Object) bool {
+		switch qmemo[o] {
+		case 1, 3:
+			return false
+		case 2:
+			return true
+		}
+		qmemo[o] = 1
+		if qualifies1(o) {
+			qmemo[o] = 2
+			return true
+		}
+		qmemo[o] = 3
+		return false
+	}
+	qualifies1 = func(o types.Object) bool {
+		d, ok := defs[o]
+		if !ok || multi[o] || o == r.prev || o == r.next || o == r.recv {
+			return false
+		}
+		// mentioned only in the region and in the initialisers of other qualifying definitions (closure bodies)
+		for _, id := range uses[o] {
+			if inRegion(id) {
+				continue
+			}
+			inOther := false
+			for other := range defs {
+				if other != o && inInit(id, other) && qualifies(other) {
+					inOther = true
+				}
+			}
+			if !inOther {
+				return false
+			}
+		}
+		// outside the region the variable (or a part of it) is never the target of an assignment
+		bad := false
+		ast.Inspect(fi.Decl.Body, func(n ast.Node) bool {
+			if n == nil {
+				return true
+			}
+			if inRegion(n) && n != fi.Decl.Body {
+				return false
+			}
+			switch t := n.(type) {
+			case *ast.AssignStmt:
+				for _, lh := range t.Lhs {
+					if rootObj(info, lh) == o && !(t == d.stmt) {
+						bad = true
+					}
+				}
+			case *ast.IncDecStmt:
+				if rootObj(info, t.X) == o {
+					bad = true
+				}
+			case *ast.RangeStmt:
+				for _, e := range []ast.Expr{t.Key, t.Value} {
+					if e != nil && rootObj(info, e) == o {
+						bad = true
+					}
+				}
+			}
+			return !bad
+		})
+		return !bad
+	}
+	want = func(root ast.Node) {
+		ast.Inspect(root, func(n ast.Node) bool {
+			id, ok := n.(*ast.Ident)
+			if !ok {
+				return true
+			}
+			o, ok := info.Uses[id].(*types.Var)
+			if !ok || accepted[o] {
+				return true
+			}
+			if _, isDef := defs[o]; !isDef {
+				return true
+			}
+			if !qualifies(o) {
+				return true
+			}
+			accepted[o] = true
+			if d := defs[o]; d.init != nil {
+				want(d.init) // its own free variables first
+			}
+			order = append(order, o)
+			return true
+		})
+	}
+	for _, s := range r.stmts {
+		want(s)
+	}
+	sort.SliceStable(order, func(i, j int) bool { return defs[order[i]].id.Pos() < defs[order[j]].id.Pos() })
+	for _, o := range order {
+		perCell := false
+		for _, s := range listOfNode(owner) {
+			if s.Pos() <= defs[o].id.Pos() && defs[o].id.End() <= s.End() {
+				perCell = true
+			}
+		}
+		r.prelude = append(r.prelude, c18LocalDef{obj: o, init: defs[o].init, perCell: perCell})
+	}
+	return ""
+}
+
 func (w *c18World) renderProducer(name string, rgb, su, legacy bool) (*c18Producer, *c18Region, string) {
 	fi := w.p.Func(name)
 	if fi == nil {
 		return nil, nil, "function not found"
 	}
-	prod := &c18Producer{name: name, fi: fi, su: su, rgb: rgb, isLegacy: legacy}
+	prod := &c18Producer{name: name, fi: fi, su: su, rgb: rgb, isLegacy: legacy, legacyOnly: w.legacyOnly}
 	var vs []string
 	if !rgb {
 		vs = append(vs, "-rgb")
@@ -952,12 +1301,42 @@ func (w *c18World) renderProducer(name string, rgb, su, legacy bool) (*c18Produc
 		defer func() { w.m.sink = nil }()
 		var sb strings.Builder
 		e.segments = make([][]c18Event, len(cells))
+		// definitions the region uses: a definition whose initialiser cannot be evaluated (or writes to the
+		// terminal) leaves the variable unbound, i.e. unknown to the region
+		define := func(perCell bool) {
+			for _, d := range reg.prelude {
+				if d.perCell != perCell {
+					continue
+				}
+				delete(fr.env, d.obj)
+				var v c18Val
+				if d.init == nil {
+					v = c18Zero(d.obj.Type())
+				} else {
+					n, outLen := len(w.m.events), w.m.out.Len()
+					steps, depth := w.m.steps, w.m.depth
+					pm, am := w.m.protect(func() { v = c18Copy(w.m.eval(fr, d.init)) })
+					w.m.steps, w.m.depth = steps, depth
+					if pm != "" || am != "" || len(w.m.events) != n || w.m.out.Len() != outLen {
+						w.m.events = w.m.events[:n]
+						kept := w.m.out.String()[:outLen]
+						w.m.out.Reset()
+						w.m.out.WriteString(kept)
+						continue
+					}
+				}
+				box := v
+				fr.env[d.obj] = &box
+			}
+		}
+		define(false)
 		e.panicMsg, e.abortMsg = w.m.protect(func() {
 			for j, s := range cells {
 				cv := w.cellVal(s, c18Grapheme(j))
 				fr.env[reg.next] = &cv
 				w.m.events = w.m.events[:0]
 				w.m.out.Reset()
+				define(true)
 				for _, st := range reg.stmts {
 					if ctl := w.m.stmt(fr, st, ""); ctl.kind != c18CtlNone {
 						w.m.abort("control leaves the SGR region of %s", name)
